@@ -44,6 +44,9 @@ def _cases_first_call(tier):
             out.append(spec)
     from .c02 import extra_cases
     out += [c for c in extra_cases(tier)]
+    # a plugin convention derived from a built-in one through the documented hook (_make_polygons): land cells without polygons
+    out.append({'family': 'cf1d', 'ny': 3, 'nx': 4, 'bounds': 'var', 'plugin': 'holed', 'plugin_missing': [5, 6], 'explicit_names': True})
+    out.append({'family': 'cf1d', 'ny': 4, 'nx': 3, 'plugin': 'holed', 'plugin_missing': [0, 4, 11], 'explicit_names': True})
     # cells that overlap their neighbours: in the overlap the lowest index must win
     out.append({'family': 'cf1d', 'ny': 3, 'nx': 4, 'bounds': 'overlap'})
     out.append({'family': 'cf1d', 'ny': 4, 'nx': 3, 'bounds': 'overlap', 'lat_kind': 'desc', 'lon_kind': 'desc'})
